@@ -4,9 +4,9 @@
 ID=$1; D=$2; WT=/tmp/mutcheck/$ID-$$
 mkdir -p /tmp/mutcheck
 git -C /repo worktree add -q --detach $WT HEAD || exit 2
-echo "== demo on clean tree"; (cd $WT && PYTHONPATH=$WT timeout 600 /venv/bin/python $D/demo.py >/tmp/mutcheck/demo_clean.$$ 2>&1; echo "exit=$?")
+echo "== demo on clean tree"; (cd $WT && PYTHONPATH=$WT${EXTRA_PP:+:$EXTRA_PP} timeout 900 /venv/bin/python $D/demo.py >/tmp/mutcheck/demo_clean.$$ 2>&1; echo "exit=$?")
 if ! git -C $WT apply $D/patch.diff; then echo "PATCH DOES NOT APPLY"; git -C /repo worktree remove --force $WT; exit 3; fi
-echo "== demo with change"; (cd $WT && PYTHONPATH=$WT timeout 600 /venv/bin/python $D/demo.py >/tmp/mutcheck/demo_mut.$$ 2>&1; echo "exit=$?"; tail -3 /tmp/mutcheck/demo_mut.$$)
+echo "== demo with change"; (cd $WT && PYTHONPATH=$WT${EXTRA_PP:+:$EXTRA_PP} timeout 900 /venv/bin/python $D/demo.py >/tmp/mutcheck/demo_mut.$$ 2>&1; echo "exit=$?"; tail -3 /tmp/mutcheck/demo_mut.$$)
 echo "== check $ID with change"
 cd /verif && VERIF_REPO=$WT LOCK_WAIT=20 timeout 3000 ./check $ID ${TIER:+--tier $TIER} 2>&1 | grep -E "VIOLATION|KNOWN-FINDING|obligations [0-9]" | cut -c1-220 | head -${LINES_MAX:-12}
 git -C /repo worktree remove --force $WT
